@@ -58,7 +58,7 @@ theorem sign_generator_twin_same :
 /-- No function of packages `groupsig`, `groupsig/bn256`, `base` writes a package-level variable
     (assignment, increment/decrement, a mutating method or `gfpXxx(dst, …)` helper applied to one): results cannot
     depend on process-local history through package state. A scratch buffer or a constant mutated
-    through an alias at package level makes this false. -/
+    through an alias (also a local bound directly to a package variable) makes this false. -/
 theorem path_writes_no_package_state :
     C13Sites.packageStateWrites = [] ∧ 20 ≤ C13Sites.pathFilesScanned := by decide
 
